@@ -195,7 +195,7 @@ func (m *mrun) val(v V) refarr.Value {
 		return refarr.Num(float64(v.N))
 	case "s":
 		return refarr.Str(v.S)
-	case "o", "vo", "ts", "tl":
+	case "o", "vo", "ts", "tl", "vom":
 		return refarr.ObjV(m.tags[v.Tag])
 	case "arr":
 		return refarr.ObjV(m.arrOf(v.E))
@@ -251,6 +251,15 @@ func (m *mrun) declare(in *Input) {
 		switch v.K {
 		case "vo":
 			mk("valueOf", "vo")
+		case "vom":
+			// valueOf that changes the receiver (pushes 99) before it answers
+			ret := m.val(*v.Ret)
+			f := m.r.NewFunction("", func(*refarr.Realm, refarr.Value, []refarr.Value) refarr.Value {
+				m.logf("vom:" + tag)
+				m.r.ArrayPush(m.R, []refarr.Value{refarr.Num(99)})
+				return ret
+			})
+			m.r.DefineOwnProperty(o, "valueOf", refarr.DataDesc(refarr.ObjV(f), true, true, true), true)
 		case "ts":
 			mk("toString", "ts")
 		case "tl":
@@ -475,6 +484,9 @@ func (m *mrun) desc(name string, d *DescSpec) refarr.Desc {
 		out.HasGet = true
 		out.Get = m.r.NewFunction("", func(*refarr.Realm, refarr.Value, []refarr.Value) refarr.Value {
 			m.logf("get:" + name)
+			if d.GetDel != nil && m.R.K == refarr.KObj {
+				m.r.Delete(m.R.O, fmt.Sprint(*d.GetDel), false)
+			}
 			return ret
 		})
 	}
